@@ -69,6 +69,18 @@ pub fn run(s: &dyn Subject, ctx: &Ctx) -> Option<DeclReport> {
                 }
             }
         }
+        // ... and `deserialize_in_place` into an existing finite value: whatever the call returns, the place must hold a finite value afterwards
+        let seed = Value::f64_or_f32(spec, 0.5);
+        if let Obs::Ok(_) = s.ctor(&seed) {
+            for (f, p, d) in work.iter().filter(|w| w.1 == crate::subject::Pos::Bare) {
+                if let Some((_r, place)) = s.de_in_place(*f, d, &seed, false) {
+                    for v in &place {
+                        assert_finite(&mut rep, "Deserialize(in place)", format!("{:?}@{:?}:{}", p, f, String::from_utf8_lossy(d)), v);
+                    }
+                    rep.guard("in_place_checked");
+                }
+            }
+        }
     }
     // Arbitrary entry point (arbitrary corpus declarations)
     if !slice_only && s.arb(&[]).is_some() {
